@@ -105,18 +105,25 @@ func expectedURI(override, nodeID, connAddr string) (hostport string, refuse boo
 		if err != nil {
 			return "", true
 		}
+		bare := false
 		if h := u.Hostname(); u.User == nil && len(h) == 128 && isHex(h) {
 			// "enode://<id>" - an id without an address (what the agent-side parser calls the id-only form): it
 			// names an identity, not a host
 			if h != nodeID {
 				return "", true
 			}
+		} else if ip := net.ParseIP(u.Host); ip != nil && strings.Contains(u.Host, ":") {
+			// an IPv6 address without brackets is an address without a port, whatever its last group looks like
+			if !ip.IsUnspecified() {
+				host = u.Host
+			}
+			bare = true
 		} else if h != "" {
 			if ip := net.ParseIP(h); ip == nil || !ip.IsUnspecified() {
 				host = h
 			}
 		}
-		if p := u.Port(); p != "" {
+		if p := u.Port(); p != "" && !bare {
 			port = p
 		}
 		if un := u.User.Username(); un != "" && un != nodeID {
